@@ -1,6 +1,6 @@
 CHECK = dict(
     level='model_checking', engine='vsched',
-    parts=[dict(name='c06', src=['harness/c06_fibre.c'], cflags=['-DPROP=6', '-Wno-format-truncation'], workers=16,
+    parts=[dict(name='c06', src=['harness/c06_fibre.c'], cflags=['-DPROP=6', '-Wno-format-truncation'], workers=64,
                 objs=[('@VERIF@/harness/c06_scn.c', ['-fsanitize=thread'])],
                 deadline=dict(quick=150, thorough=1800))],
     rule='stateless exploration of the real fibre.c/list.c/messageq.c (compiled with -fsanitize=thread against engine/vsched.c): a '
